@@ -222,7 +222,30 @@ def run_case(idx, rng, P, rep):
             trace.append(('class_set', K.__name__, n, v, 'declares' if n in vars(K) else 'inherits'))
             if any(s.__name__ in reads_before for s in classes if issubclass(s, K)):
                 nontrivial[0] = True
-            setattr(K, n, v)
+            inside = []
+            w_in = None
+            if rng.random() < 0.4:
+                # a class-level watcher that looks at the class (and a subclass) while it is being told: the namespace already
+                # agrees with attribute access then
+                def look(*evs, K=K, n=n):
+                    for C_ in [K] + [s_ for s_ in classes if s_ is not K and issubclass(s_, K)][:1]:
+                        gov_ = governing(C_, Parameter).get(n)
+                        attr_ = getattr(C_, n)
+                        if C_.param[n] is not gov_:
+                            inside.append(f'{C_.__name__}.param[{n!r}] is not the governing Parameter object')
+                        elif C_.param[n].default != attr_ and n != 'xy':
+                            inside.append(f'{C_.__name__}.param[{n!r}].default={C_.param[n].default!r} but {C_.__name__}.{n}={attr_!r}')
+                        elif n != 'xy' and C_.param.values().get(n, '<missing>') != attr_:
+                            inside.append(f'{C_.__name__}.param.values()[{n!r}]={C_.param.values().get(n)!r} but getattr={attr_!r}')
+                w_in = K.param.watch(look, n, onlychanged=False)
+                rep.count('namespace_checks_inside_class_watchers')
+            try:
+                setattr(K, n, v)
+            finally:
+                if w_in is not None:
+                    K.param.unwatch(w_in)
+            if inside:
+                viol('class/namespace-disagrees-while-watcher-runs', f'{K.__name__}.{n} = {v!r}: while a class-level watcher ran, {inside[0]}')
             if getattr(K, n) != v:
                 viol('class/set-lost', f'{K.__name__}.{n} = {v!r} but getattr gives {getattr(K, n)!r}')
         elif c < 0.53:
@@ -353,5 +376,23 @@ def run_case(idx, rng, P, rep):
                 viol('class/watch-through-namespace-missed', f'{K.__name__}.param.watch({n!r}) then {K.__name__}.{n}={v!r}: '
                      f'watcher got {[(e.name, e.new) for e in got]}')
         verify(f'step{step}:{kinds[-1] if kinds else ""}')
+    # ---- what "watching" a parameter of such an object through another object refers to: the dependency information of a method
+    #      that depends on 'sub.<name>' names the very Parameter object that governs <name> on the attached object
+    for ii, (o, touched) in enumerate(insts[:2]):
+        names_ = [n for n in governing(type(o), Parameter) if n not in ('name', 'xy')]
+        if not names_:
+            continue
+        n = rng.choice(names_)
+        Holder = type(f'Hold{idx}_{ii}', (param.Parameterized,), {
+            'sub': param.Parameter(default=None), 'm': param.depends(f'sub.{n}', watch=False)(lambda self: None)})
+        h = Holder(sub=o)
+        for pi in h.param.method_dependencies('m'):
+            if pi.name != n:
+                continue
+            rep.count('dependency_info_checks')
+            exp = pi.inst.param[n] if pi.inst is not None else pi.cls.param[n]
+            if pi.pobj is not exp:
+                viol('dependency-info-names-another-parameter-object', f'method_dependencies of a method depending on sub.{n}: pobj (owner '
+                     f'{getattr(pi.pobj.owner, "__name__", pi.pobj.owner)!r}) is not the Parameter object of the attached object')
     rep.case((shape, n_cls, tuple(kinds)), nontrivial=nontrivial[0])
     rep.sample(dict(desc, trace=[list(map(str, t)) for t in trace[:20]]))
